@@ -7,6 +7,7 @@ mod seq_store;
 mod seq_sender;
 mod seq_mempool;
 mod seq_full;
+mod seq_sync;
 mod hostile;
 mod c04;
 mod sim;
@@ -51,6 +52,13 @@ fn main() {
                 match v {
                     Some(v) if v["replay"]["engine"] == "seq-full" => {
                         let code = seq_full::replay(&v);
+                        if code == 1 {
+                            println!("VIOLATION property={} replay={}", prop, path);
+                        }
+                        code
+                    }
+                    Some(v) if v["replay"]["engine"] == "seq-sync" => {
+                        let code = seq_sync::replay(&v);
                         if code == 1 {
                             println!("VIOLATION property={} replay={}", prop, path);
                         }
@@ -129,6 +137,7 @@ fn main() {
             0
         }
         "C01dbg" => { sim_checks::debug_byz(); 0 }
+        "C01rounds" => { let mut rep = util::Report::new("C01", tier, "model_checking"); proto::rounds::run_c01(&mut rep, tier); println!("violations: {}", rep.violations.len()); for v in &rep.violations { println!("{}", v.what.chars().take(1500).collect::<String>()); } 0 }
         "C06dbg" => { sim_checks::debug_c06(); 0 }
         "C06" => sim_checks::c06(tier),
         "C08" => seq_full::c08(tier),
